@@ -4,7 +4,7 @@
     entry-wise with the matrix the real code filled (before loads).
 """
 import numpy as np
-from pmv import common, gen, instrument
+from pmv import common, gen, observe, instrument
 from pmv.oracles import georef, zref, pulseref
 
 ID   = 'C02'
@@ -163,6 +163,26 @@ def check (c):
                                   , msg = 'object created at %.6g MHz and set to %.6g MHz: Z[%d,%d] = %r, reference %r, deviation %.3g of the term scale (allowed 1e-4)'
                                         % (f1, f0, i + 1, j + 1, Z2 [i, j], v, dev)
                                   , measured = dev, allowed = 1e-4))
+    # ---- field requests in between leave the data of the matrix fill alone: the same object fills the same matrix
+    if mon.get ('entries') and not viol:
+        MM = common.repo ()
+        if len (m.sources):
+            try:
+                observe.solve (m)
+                common.guarded (lambda: m.compute_far_field (MM.Angle (10, 35, 3), MM.Angle (0, 60, 3)), 'compute_far_field')
+                x = np.asarray (m.pulses [0].point, float) + lam * np.array ([0.7, 0.4, 0.9])
+                common.guarded (lambda: m.compute_near_field (list (x), [1., 1., 1.], [1, 1, 1]), 'compute_near_field')
+            except common.Repo_Crash as e:
+                if 'LinAlgError' not in e.key:
+                    raise
+            common.guarded (m.compute_impedance_matrix, 'compute_impedance_matrix')
+            Z3 = np.array (m.Z)
+            mon ['refill'] = 1
+            d = np.abs (Z3 - Z).max () / np.abs (Z).max ()
+            if d > 1e-13:
+                viol.append (dict ( monitor = 'refill', key = 'matrix-after-field-requests'
+                                  , msg = 'the matrix filled again after a far-field and a near-field request on the same object differs by %.3g of its largest element from the first fill' % d
+                                  , measured = d, allowed = 1e-13))
     if not mon.get ('entries'):
         return dict (status = 'inconclusive', reason = 'no qualifying pair' if not pairs else 'quadrature self-check failed')
     sig = gen.signature (spec, m, extra = [','.join (sorted (set (r ['kind'] for r in ref)))])
